@@ -61,6 +61,11 @@ pub fn tok_run<D: Dom>(
 /// E-TOK over Σ_class with *every* function name and alias of the evaluator in turn as the only function
 /// token (with and without its bracket): what the per-name families enumerate by hand, exhaustively to `depth`
 pub fn tok_rotating<D: Dom>(cx: &RunCtx, depth: usize, kinds: &[Kind]) {
+    tok_rotating_with::<D>(cx, depth, kinds, None, false)
+}
+
+/// `full_pool`: evaluate strings containing `@` with every placeholder of the full pool (else the default one)
+pub fn tok_rotating_with<D: Dom>(cx: &RunCtx, depth: usize, kinds: &[Kind], extra: Option<Extra<D>>, full_pool: bool) {
     if !cx.wants(D::EV.name()) {
         return;
     }
@@ -78,11 +83,11 @@ pub fn tok_rotating<D: Dom>(cx: &RunCtx, depth: usize, kinds: &[Kind]) {
             alphabet: sigma_class_with(D::EV, n),
             depth,
             unpruned_depth: 9,
-            pool_shallow: vec![D::default_at()],
-            shallow_depth: 0,
+            pool_shallow: if full_pool { D::pool_full() } else { vec![D::default_at()] },
+            shallow_depth: if full_pool { depth } else { 0 },
             pool_deep: vec![D::default_at()],
             kinds,
-            extra: None,
+            extra,
             deadline: Some(cx.deadline(2400)),
         };
         let (st, _) = explore::<D>(&cfg, &cx.rec);
